@@ -531,6 +531,18 @@ func runC20(c *Ctx) {
 			if sl.Low == nil || !okLo || lo != int64(len(directive)) || sl.High != nil || !okf || fl.Name() != "Text" || b != commentV {
 				bad = "SrcSymbol is not the text of the matched comment with the directive removed"
 			}
+		} else if ex, ok := ts.Common().Args[0].(*ssa.Extract); ok && ex.Index == 0 {
+			// after, found := strings.CutPrefix(comment.Text, directive)
+			cp, isCall := ex.Tuple.(*ssa.Call)
+			if !isCall || !extFn(cp.Common(), "strings", "CutPrefix") {
+				bad = "SrcSymbol does not strip the directive with strings.TrimPrefix / CutPrefix"
+			} else {
+				cs, isC := cp.Common().Args[1].(*ssa.Const)
+				b, fl, okf := loadedField(cp.Common().Args[0])
+				if !isC || cs.Value.ExactString() != `"`+directive+`"` || !okf || fl.Name() != "Text" || b != commentV {
+					bad = "SrcSymbol is not the text of the matched comment with the directive removed"
+				}
+			}
 		} else if tp, ok := ts.Common().Args[0].(*ssa.Call); !ok || !extFn(tp.Common(), "strings", "TrimPrefix") {
 			bad = "SrcSymbol does not strip the directive with strings.TrimPrefix"
 		} else {
